@@ -45,11 +45,13 @@ theorem C19_not_a_function (as ias : List String) (iks : List Node) (st : St) :
 inductive ETy where
   | lit (s : String)
   | union (ts : List ETy)
+  | paren (t : ETy)
 
 mutual
 def ETy.toNode : ETy → Node
   | .lit s => .mk .tsLitType [] [.mk .str [s] []]
   | .union ts => .mk .tsUnion [] [nList (ETy.toNodes ts)]
+  | .paren t => .mk .tsParen [] [t.toNode]
 def ETy.toNodes : List ETy → List Node
   | [] => []
   | t :: ts => t.toNode :: ETy.toNodes ts
@@ -60,6 +62,7 @@ mutual
 def ETy.names : ETy → List String
   | .lit s => [s]
   | .union ts => ETy.namesL ts
+  | .paren t => t.names
 def ETy.namesL : List ETy → List String
   | [] => []
   | t :: ts => t.names ++ ETy.namesL ts
@@ -69,6 +72,7 @@ mutual
 def ETy.depth : ETy → Nat
   | .lit _ => 1
   | .union ts => 1 + ETy.depthL ts
+  | .paren t => 1 + t.depth
 def ETy.depthL : List ETy → Nat
   | [] => 0
   | t :: ts => max t.depth (ETy.depthL ts)
@@ -96,6 +100,15 @@ theorem resolveStrings_eq_names : ∀ (t : ETy) (fuel : Nat) (st : St), st.typeG
       rw [resolveStrings]
       simp only [enterRes_ok _ _ hg]
       exact ih
+  | .paren t, fuel, st, hg, hd => by
+    cases fuel with
+    | zero => simp [ETy.depth] at hd
+    | succ f =>
+      have ih := resolveStrings_eq_names t f st hg (by simp [ETy.depth] at hd; omega)
+      simp only [ETy.toNode, ETy.names]
+      rw [resolveStrings]
+      simp only [enterRes_ok _ _ hg]
+      exact ih
 theorem resolveStringsL_eq_names : ∀ (ts : List ETy) (fuel : Nat) (st : St) (acc : List String), st.typeGaveUp = false → ETy.depthL ts ≤ fuel →
     (ETy.toNodes ts).foldl (unionStep fuel) (acc, st) = (acc ++ ETy.namesL ts, st)
   | [], _, _, _, _, _ => by simp [ETy.toNodes, ETy.namesL]
@@ -109,6 +122,10 @@ theorem resolveStringsL_eq_names : ∀ (ts : List ETy) (fuel : Nat) (st : St) (a
       | union us =>
         have h1 := resolveStrings_eq_names (.union us) fuel st hg hd'.1
         simp only [unionStep, ETy.toNode, nList] at h1 ⊢
+        simp only [h1]
+      | paren u =>
+        have h1 := resolveStrings_eq_names (.paren u) fuel st hg hd'.1
+        simp only [unionStep, ETy.toNode] at h1 ⊢
         simp only [h1]
     rw [hstep, h2]; simp
 end
